@@ -32,7 +32,7 @@ pub const EULER_ALL: [EulerRot; 24] = [
     EulerRot::XYZEx, EulerRot::XZYEx, EulerRot::ZYZEx, EulerRot::ZXZEx, EulerRot::YXYEx, EulerRot::YZYEx, EulerRot::XYXEx, EulerRot::XZXEx,
 ];
 
-pub const N_OPS: usize = 52;
+pub const N_OPS: usize = 53;
 pub const STEP_WORDS: usize = 12;
 pub const MAX_STEPS: usize = 12;
 
@@ -334,6 +334,28 @@ macro_rules! family {
                     48 => { if let Some(m) = pick(c, &s.rig4) { let (sc, r, t) = m.to_scale_rotation_translation(); s.o3(sc); s.p_uq("Mat4::to_scale_rotation_translation(rigid).rotation", r); s.o3(t); s.consumer_steps_on_produced += 1; } "rigid to_srt" }
                     49 => { let (q, fed) = uq(c, s); let sc = seed_scale(c); let t = seed_v3(c) * 10.0; let m = $M4::from_scale_rotation_translation(sc, q, t); let (s2, r2, t2) = m.to_scale_rotation_translation(); s.o3(s2); s.p_uq("to_scale_rotation_translation(TRS).rotation", r2); s.o3(t2); let a = $A3::from_scale_rotation_translation(sc, q, t); let (s3, r3, t3) = a.to_scale_rotation_translation(); s.o3(s3); s.p_uq("Affine3::to_scale_rotation_translation(TRS).rotation", r3); s.o3(t3); if fed { s.consumer_steps_on_produced += 1; } "TRS decompose" }
                     50 => { if $f32only { f32only_step(c, s); } "f32-only (Vec3A / Mat3A / Affine3A)" }
+                    51 => {
+                        // inverses of well-conditioned matrices of either orientation (reflections, mirrored scales, small determinants):
+                        // the only documented precondition is det != 0
+                        let (q, fed) = uq(c, s);
+                        let sc = seed_scale(c);
+                        let k = (2.0f64).powf(c.r(-6.0, 6.0)) as F;
+                        let m3 = $M3::from_quat(q) * $M3::from_diagonal(sc * k);
+                        s.om3(m3.inverse());
+                        s.of(m3.determinant());
+                        s.om3($M3::from_diagonal(sc).inverse());
+                        let m2 = $M2::from_scale_angle($V2::new(sc.x, sc.y) * k, angle(c));
+                        for x in m2.inverse().to_cols_array() { s.obs.push(bits(x)); }
+                        let a2 = $A2::from_scale_angle_translation($V2::new(sc.y, sc.z), angle(c), seed_v2(c));
+                        s.oa2(a2.inverse());
+                        let m4_ = $M4::from_scale_rotation_translation(sc * k, q, seed_v3(c));
+                        s.om4(m4_.inverse());
+                        let a3_ = $A3::from_scale_rotation_translation(sc * k, q, seed_v3(c));
+                        s.oa3(a3_.inverse());
+                        if $f32only { f32only_inverse(c, &mut s.obs); }
+                        if fed { s.consumer_steps_on_produced += 1; }
+                        "inverse of mirrored / scaled matrices"
+                    }
                     _ => { let (q, fed) = uq(c, s); if let Some(a) = pick(c, &s.a3) { let _ = a; } let m = $M3::from_quat(q); s.oq($Q::from_mat3(&m)); let m4_ = $M4::from_quat(q); s.oq($Q::from_mat4(&m4_)); if fed { s.consumer_steps_on_produced += 1; } "quat<->mat round trip" }
                 }
             }
@@ -499,6 +521,17 @@ fn f32only_clamps(c: &mut Cur, obs: &mut Vec<u64>) {
     put(v.reflect(n));
     put(n.refract(n.any_orthonormal_vector(), 1.3));
     put(n.any_orthonormal_vector());
+}
+
+#[allow(dead_code)]
+fn f32only_inverse(c: &mut Cur, obs: &mut Vec<u64>) {
+    let sc = Vec3::new(if c.idx(2) == 0 { 1.5 } else { -1.5 }, if c.idx(2) == 0 { 0.75 } else { -0.75 }, if c.idx(2) == 0 { 2.0 } else { -2.0 }) * (2.0f64).powf(c.r(-6.0, 6.0)) as f32;
+    let q = Quat::from_axis_angle(Vec3::new(0.6, 0.0, 0.8), c.r(-3.0, 3.0) as f32);
+    let m = Mat3A::from_quat(q) * Mat3A::from_diagonal(sc);
+    for x in m.inverse().to_cols_array() {
+        obs.push(x.to_bits() as u64);
+    }
+    obs.push(m.determinant().to_bits() as u64);
 }
 
 #[allow(dead_code)]
